@@ -927,11 +927,11 @@ pub fn run_backpressure(ctx: &Ctx) -> i32 {
             ev.count("response_bytes_received", c.rx.len() as u64);
             let mut bad: Option<Viol> = None;
             match wire::parse_all(&c.rx) {
-                Err(e) => bad = Some(Viol::new(&["C11", "C12"], "resp-grammar-under-backpressure", format!("{} gets of a {}-byte value: {}", n, size, e))),
+                Err(e) => bad = Some(Viol::new(&["C11", "C12", "C01"], "resp-grammar-under-backpressure", format!("{} gets of a {}-byte value: {}", n, size, e))),
                 Ok(rs) => {
                     ev.count("responses_parsed", rs.len() as u64);
                     if rs.len() != want {
-                        bad = Some(Viol::new(&["C11", "C12"], "responses-missing-under-backpressure", format!("{} of {} responses arrived (connection {:?})", rs.len(), want, c.end)));
+                        bad = Some(Viol::new(&["C11", "C12", "C01"], "responses-missing-under-backpressure", format!("{} of {} responses arrived (connection {:?})", rs.len(), want, c.end)));
                     } else {
                         for (i, r) in rs.iter().enumerate() {
                             if r.status != st::OK || r.value != value || r.opaque != 100 + i as u32 || r.flags() != Some(0xf1a6) {
